@@ -220,7 +220,13 @@ func (s *State) clone() *State {
 }
 
 // get returns the current term for key k, creating the epoch variable lazily.
+// readTrack, when non-nil, records the state keys read (used to find the heap footprint of a recursive spec function)
+var readTrack map[string]*Sort
+
 func (s *State) get(k string, sort *Sort) *Term {
+	if readTrack != nil {
+		readTrack[k] = sort
+	}
 	if t, ok := s.m[k]; ok {
 		return t
 	}
